@@ -641,10 +641,14 @@ class GraphBuilder(BuilderBase):
         if (
             isinstance(value, (list, tuple))
             and value
-            and all(isinstance(v, type(value[0])) for v in value)
-            and isinstance(value[0], (int, float, bool, str))
+            and (
+                all(isinstance(v, (int, float, bool)) for v in value)
+                or all(isinstance(v, str) for v in value)
+            )
         ):
-            if dtype is None:
+            if dtype is None and all(isinstance(v, type(value[0])) for v in value):
+                # Mixed numeric lists like [1, 2.5] keep dtype None: ir.tensor lets numpy infer
+                # the element type, as the script converter does for the same literal.
                 dtype = _PYTHON_TYPE_TO_DTYPE.get(type(value[0]))
             cache_key = (repr(tuple(value)), dtype)
             if cache_key in root._constant_cache:
